@@ -39,12 +39,12 @@ def re_sub(ex, pattern, repl, s, st):
     r = f(s)
     if pattern == r"[^0-9a-zA-Z_]" and repl == "_":
         AXIOMS_USED.add("re.sub('[^0-9a-zA-Z_]','_',s) is in [0-9a-zA-Z_]* and has the length of s")
-        st.assume(z3.InRe(r, star(ALNUM_)))
-        st.assume(z3.Length(r) == z3.Length(s))
+        ex.axiom(z3.InRe(r, star(ALNUM_)))
+        ex.axiom(z3.Length(r) == z3.Length(s))
     elif pattern == r"_+" and repl == "_":
         AXIOMS_USED.add("re.sub('_+','_',s): stays inside any character class that s is in ([0-9a-zA-Z_]*), is empty iff s is empty")
-        st.assume(z3.Implies(z3.InRe(s, star(ALNUM_)), z3.InRe(r, star(ALNUM_))))
-        st.assume((z3.Length(r) == 0) == (z3.Length(s) == 0))
+        ex.axiom(z3.Implies(z3.InRe(s, star(ALNUM_)), z3.InRe(r, star(ALNUM_))))
+        ex.axiom((z3.Length(r) == 0) == (z3.Length(s) == 0))
     elif pattern == r"[{}]" and repl == "":
         AXIOMS_USED.add("re.sub('[{}]','',s): no fact used")
     else:
@@ -57,10 +57,10 @@ def strip_chars(ex, s, chars, st):
     r = f(s)
     if chars == "_":
         AXIOMS_USED.add("s.strip('_'): a substring of s (stays in [0-9a-zA-Z_]*), neither starts nor ends with '_'")
-        st.assume(z3.Implies(z3.InRe(s, star(ALNUM_)), z3.InRe(r, star(ALNUM_))))
-        st.assume(z3.Not(z3.PrefixOf(z3.StringVal("_"), r)))
-        st.assume(z3.Not(z3.SuffixOf(z3.StringVal("_"), r)))
-        st.assume(z3.Length(r) <= z3.Length(s))
+        ex.axiom(z3.Implies(z3.InRe(s, star(ALNUM_)), z3.InRe(r, star(ALNUM_))))
+        ex.axiom(z3.Not(z3.PrefixOf(z3.StringVal("_"), r)))
+        ex.axiom(z3.Not(z3.SuffixOf(z3.StringVal("_"), r)))
+        ex.axiom(z3.Length(r) <= z3.Length(s))
     return VStr(r)
 
 
@@ -68,7 +68,7 @@ def lower(ex, s, st):
     f = z3.Function("py.lower", StrS, StrS)
     r = f(s)
     AXIOMS_USED.add("s.lower(): maps [0-9a-zA-Z_]* into [0-9a-z_]*, length preserving on ASCII, keeps a leading/trailing '_' status")
-    st.assume(z3.Implies(z3.InRe(s, star(ALNUM_)), z3.And(z3.InRe(r, star(LOWER_)), z3.Length(r) == z3.Length(s),
+    ex.axiom(z3.Implies(z3.InRe(s, star(ALNUM_)), z3.And(z3.InRe(r, star(LOWER_)), z3.Length(r) == z3.Length(s),
                                                            z3.PrefixOf(z3.StringVal("_"), r) == z3.PrefixOf(z3.StringVal("_"), s))))
     return VStr(r)
 
@@ -76,7 +76,7 @@ def lower(ex, s, st):
 def isdigit(ex, s, st):
     f = z3.Function("py.isdigit", StrS, BoolS)
     AXIOMS_USED.add("c.isdigit() for a one-character string in [0-9a-z_]: true iff c in [0-9]")
-    st.assume(z3.Implies(z3.And(z3.Length(s) == 1, z3.InRe(s, LOWER_)), f(s) == z3.InRe(s, DIGIT)))
+    ex.axiom(z3.Implies(z3.And(z3.Length(s) == 1, z3.InRe(s, LOWER_)), f(s) == z3.InRe(s, DIGIT)))
     return VBool(f(s))
 
 
